@@ -24,7 +24,8 @@ CONSTANTS MaxPages,   \* pages per collection: 1..MaxPages
           MaxItems,   \* items per page: 0..MaxItems
           MaxCalls,   \* calls per behaviour (bounded configurations)
           ShapeStops, \* BOOLEAN: draw the earliest stop instant in Init (simulation shaping only)
-          Stream      \* BOOLEAN: stream paginators (future links, DryUp, grace period)
+          Stream,     \* BOOLEAN: stream paginators (future links, DryUp, grace period)
+          HaltInFetch \* BOOLEAN: scenarios in which the paginator is halted while a page is being fetched
 
 VARIABLES pages,    \* sequence of page sizes
           links,    \* links[i] \in {"next","future"}: how page i+1 is reached from page i
@@ -41,10 +42,13 @@ VARIABLES pages,    \* sequence of page sizes
           last,     \* observable record of the last call
           agree,    \* ghost: as-coded result agreed with the property-level oracle so far
           hist,     \* history of call records (behaviour emission only)
-          stopAfter \* emission shaping: Stop/Close/Cancel only once this many calls were made
+          stopAfter,\* emission shaping: Stop/Close/Cancel only once this many calls were made
+          haltFetch \* scenario: the paginator is halted (Stop / Close / cancellation, from inside the fetch callback or by
+                    \* another goroutine) WHILE page number haltFetch is being fetched, and the fetch still delivers the
+                    \* page; 0 = never
 
 core == <<pages, links, open, failAt, built, cur, idx, stopped, dry, late, graceOver, yielded, last, agree>>
-vars == <<core, hist, stopAfter>>
+vars == <<core, hist, stopAfter, haltFetch>>
 
 NoRes == [op |-> "none", b |-> FALSE, item |-> 0, kind |-> "", free |-> FALSE, late |-> FALSE]
 
@@ -82,31 +86,35 @@ SpecHas ==
 \* AbstractPaginator.HasNext: advance across exhausted and empty pages through next links
 RECURSIVE BaseAdv(_, _)
 BaseAdv(c, i) ==
-    IF i < pages[c] THEN [c |-> c, i |-> i, has |-> TRUE]
+    IF i < pages[c] THEN [c |-> c, i |-> i, has |-> TRUE, halted |-> FALSE]
     ELSE IF c < Len(pages) /\ links[c] = "next"
-         THEN IF failAt = c + 1 THEN [c |-> c, i |-> i, has |-> FALSE]
+         THEN IF failAt = c + 1 THEN [c |-> c, i |-> i, has |-> FALSE, halted |-> FALSE]
+              \* halted during this very fetch: the page arrives, the context test that follows ends the search
+              ELSE IF haltFetch = c + 1 THEN [c |-> c + 1, i |-> 0, has |-> FALSE, halted |-> TRUE]
               ELSE BaseAdv(c + 1, 0)
-         ELSE [c |-> c, i |-> i, has |-> FALSE]
+         ELSE [c |-> c, i |-> i, has |-> FALSE, halted |-> FALSE]
 
 \* AbstractStreamPaginator.HasNext: loop over future pages with the dry-up timeout
 RECURSIVE StreamAdv(_, _, _)
 StreamAdv(c, i, lt) ==
     LET b == BaseAdv(c, i) IN
-    IF b.has THEN [c |-> b.c, i |-> b.i, has |-> TRUE, late |-> FALSE, blocks |-> FALSE]
+    IF b.halted THEN [c |-> b.c, i |-> b.i, has |-> FALSE, late |-> lt, blocks |-> FALSE, halted |-> TRUE]
+    ELSE IF b.has THEN [c |-> b.c, i |-> b.i, has |-> TRUE, late |-> FALSE, blocks |-> FALSE, halted |-> FALSE]
     ELSE LET hasFuture == \/ (b.c < Len(pages) /\ links[b.c] = "future")
                           \/ (b.c = Len(pages) /\ open)
-         IN IF ~hasFuture THEN [c |-> b.c, i |-> b.i, has |-> FALSE, late |-> lt, blocks |-> FALSE]
-            ELSE IF dry /\ lt THEN [c |-> b.c, i |-> b.i, has |-> FALSE, late |-> lt, blocks |-> FALSE]
+         IN IF ~hasFuture THEN [c |-> b.c, i |-> b.i, has |-> FALSE, late |-> lt, blocks |-> FALSE, halted |-> FALSE]
+            ELSE IF dry /\ lt THEN [c |-> b.c, i |-> b.i, has |-> FALSE, late |-> lt, blocks |-> FALSE, halted |-> FALSE]
             ELSE IF b.c = Len(pages)
                  \* open end: the future page is empty for ever; the loop spins until dried up and
                  \* the grace period elapsed (for ever when not dry: the call blocks)
-                 THEN [c |-> b.c, i |-> b.i, has |-> FALSE, late |-> TRUE, blocks |-> ~dry]
-            ELSE IF failAt = b.c + 1 THEN [c |-> b.c, i |-> b.i, has |-> FALSE, late |-> lt, blocks |-> FALSE]
+                 THEN [c |-> b.c, i |-> b.i, has |-> FALSE, late |-> TRUE, blocks |-> ~dry, halted |-> FALSE]
+            ELSE IF failAt = b.c + 1 THEN [c |-> b.c, i |-> b.i, has |-> FALSE, late |-> lt, blocks |-> FALSE, halted |-> FALSE]
+            ELSE IF haltFetch = b.c + 1 THEN [c |-> b.c + 1, i |-> 0, has |-> FALSE, late |-> lt, blocks |-> FALSE, halted |-> TRUE]
             ELSE StreamAdv(b.c + 1, 0, IF dry THEN lt ELSE FALSE)
 
-Adv == IF stopped THEN [c |-> cur, i |-> idx, has |-> FALSE, late |-> late, blocks |-> FALSE]
+Adv == IF stopped THEN [c |-> cur, i |-> idx, has |-> FALSE, late |-> late, blocks |-> FALSE, halted |-> FALSE]
        ELSE IF Stream THEN StreamAdv(cur, idx, late)
-       ELSE LET b == BaseAdv(cur, idx) IN [c |-> b.c, i |-> b.i, has |-> b.has, late |-> late, blocks |-> FALSE]
+       ELSE LET b == BaseAdv(cur, idx) IN [c |-> b.c, i |-> b.i, has |-> b.has, late |-> late, blocks |-> FALSE, halted |-> b.halted]
 
 Agrees(has) == LET s == SpecHas IN s = "free" \/ (s = "true") = has
 
@@ -127,22 +135,25 @@ HasNext ==
     /\ LET a == Adv IN
        /\ ~a.blocks
        /\ cur' = a.c /\ idx' = a.i /\ late' = a.late
-       /\ agree' = (agree /\ Agrees(a.has))
+       /\ stopped' = (stopped \/ a.halted)
+       \* halted inside this call: the answer must be "no" whatever was left
+       /\ agree' = (agree /\ (IF a.halted THEN ~a.has ELSE Agrees(a.has)))
        /\ last' = [op |-> "HasNext", b |-> a.has, item |-> 0, kind |-> "", free |-> (SpecHas = "free"), late |-> late]
-    /\ UNCHANGED <<pages, links, open, failAt, built, stopped, dry, graceOver, yielded>>
+    /\ UNCHANGED <<pages, links, open, failAt, built, dry, graceOver, yielded>>
 
 \* GetNext as coded: the base paginator's GetNext first (it does not touch the run-out timer); only
 \* when that finds nothing the stream's HasNext loop runs and the base GetNext is retried
 AdvGet == IF stopped \/ ~Stream THEN Adv
           ELSE LET b == BaseAdv(cur, idx) IN
-               IF b.has THEN [c |-> b.c, i |-> b.i, has |-> TRUE, late |-> late, blocks |-> FALSE]
+               IF b.has THEN [c |-> b.c, i |-> b.i, has |-> TRUE, late |-> late, blocks |-> FALSE, halted |-> FALSE]
                ELSE StreamAdv(cur, idx, late)
 
 GetNext ==
     /\ built = "ok"
     /\ LET a == AdvGet IN
        /\ ~a.blocks
-       /\ agree' = (agree /\ Agrees(a.has))
+       /\ stopped' = (stopped \/ a.halted)
+       /\ agree' = (agree /\ (IF a.halted THEN ~a.has ELSE Agrees(a.has)))
        /\ IF a.has
           THEN /\ cur' = a.c /\ idx' = a.i + 1 /\ late' = a.late
                /\ yielded' = yielded + 1
@@ -152,7 +163,7 @@ GetNext ==
                /\ yielded' = yielded
                /\ last' = [op |-> "GetNext", b |-> FALSE, item |-> 0,
                            kind |-> (IF stopped THEN "cancelled" ELSE "notfound"), free |-> (SpecHas = "free"), late |-> late]
-    /\ UNCHANGED <<pages, links, open, failAt, built, stopped, dry, graceOver>>
+    /\ UNCHANGED <<pages, links, open, failAt, built, dry, graceOver>>
 
 Halt(how) ==   \* Stop()(), Close(), cancellation of the parent context
     /\ built = "ok"
@@ -193,12 +204,14 @@ Init ==
     /\ stopped = FALSE /\ dry = FALSE /\ late = FALSE /\ graceOver = FALSE /\ yielded = 0
     /\ last = NoRes /\ agree = TRUE /\ hist = <<>>
     /\ stopAfter \in StopAfterSet
+    /\ haltFetch \in (IF HaltInFetch THEN 2..Len(pages) ELSE {}) \cup {0}
+    /\ (haltFetch # 0 => failAt = 0)
 
 Next == /\ Len(hist) < MaxCalls
         /\ Call
         /\ (last'.op \in {"Stop", "Close", "Cancel"} => (Len(hist) >= stopAfter /\ (ShapeStops => ~stopped)))
         /\ hist' = Append(hist, last')
-        /\ UNCHANGED stopAfter
+        /\ UNCHANGED <<stopAfter, haltFetch>>
 
 Spec == Init /\ [][Next]_vars
 
@@ -232,8 +245,8 @@ HasNextIdempotent ==
 ExhaustedMeansAll ==
     (last.op = "HasNext" /\ ~last.b /\ ~stopped /\ ~Stream) => yielded = SumTo(pages, Obtainable)
 
-Scenario == [pages |-> pages, links |-> links, open |-> open, failAt |-> failAt, stream |-> Stream, calls |-> hist]
+Scenario == [pages |-> pages, links |-> links, open |-> open, failAt |-> failAt, stream |-> Stream, haltFetch |-> haltFetch, calls |-> hist]
 Emit == (Len(hist) = MaxCalls \/ built = "failed") => PrintT(<<"BEHAVIOUR", ToJson(Scenario)>>)
 
-View == core
+View == <<core, haltFetch>>
 =============================================================================
